@@ -1,4 +1,5 @@
 import YardlModel.WireJson
+import YardlModel.Streams
 
 /-! Line-protocol driver for the wire engine: one JSON request per line on stdin, one JSON
     reply per line on stdout. -/
@@ -11,6 +12,53 @@ def bytesStr (bs : Bytes) : String :=
   match String.fromUTF8? (ByteArray.mk bs.toArray) with
   | some s => s
   | none => "<invalid utf8>"
+
+def wopOfJson (j : Json) : Except String WOp := do
+  let a ← j.getArr?
+  let tag ← (a[0]?.getD Json.null).getStr?
+  let arg (i : Nat) : Json := a[i]?.getD Json.null
+  match tag with
+  | "b" => pure (.byte (UInt8.ofNat (← jNat (arg 1))))
+  | "bn" => pure (.byteNoCheck (UInt8.ofNat (← jNat (arg 1))))
+  | "v32" => pure (.var32 (← jNat (arg 1)))
+  | "v64" => pure (.var64 (← jNat (arg 1)))
+  | "s32" => pure (.var32 (zigzag (← (arg 1).getInt?)))
+  | "s64" => pure (.var64 (zigzag (← (arg 1).getInt?)))
+  | "f" => pure (.fixed (← jNat (arg 1)) (← jNat (arg 2)))
+  | "x" =>
+    let h ← (arg 1).getStr?
+    match ofHex h with
+    | some bs => pure (.bytes bs)
+    | none => throw "bad hex"
+  | "fl" => pure .flush
+  | _ => throw s!"bad wop {tag}"
+
+/-- Runs reader ops on the CIS model; one output token per op, stops at the first failure. -/
+def runCis (s : CIS) : List Json → List String → Except String (List String)
+  | [], acc => pure acc.reverse
+  | j :: rest, acc => do
+    let a ← j.getArr?
+    let tag ← (a[0]?.getD Json.null).getStr?
+    let arg (i : Nat) : Json := a[i]?.getD Json.null
+    let fin {α} (r : ROut α) (f : α → String) : Except String (Option (String × CIS) × String) :=
+      match r with
+      | .ok x s' => pure (some (f x, s'), "")
+      | .eos => pure (none, "EOS")
+      | .bad => pure (none, "BAD")
+      | .notFinished => pure (none, "NOTFINISHED")
+    let (res, stop) ← match tag with
+      | "b" => fin s.readByte (fun b => s!"b={b.toNat}")
+      | "v32" => fin s.readVar32 (fun n => s!"v={n}")
+      | "v64" => fin s.readVar64 (fun n => s!"v={n}")
+      | "s32" => fin s.readVar32 (fun n => s!"s={unzigzag n}")
+      | "s64" => fin s.readVar64 (fun n => s!"s={unzigzag n}")
+      | "f" => do fin (s.readFixed (← jNat (arg 1))) (fun n => s!"f={n}")
+      | "x" => do fin (s.readBytes (← jNat (arg 1))) (fun bs => s!"x={toHex bs}")
+      | "vf" => fin s.verifyFinished (fun _ => "vf=ok")
+      | _ => throw s!"bad rop {tag}"
+    match res with
+    | some (tok, s') => runCis s' rest (tok :: acc)
+    | none => pure (stop :: acc).reverse
 
 def handle (j : Json) : Except String Json := do
   let op ← (← j.getObjVal? "op").getStr?
@@ -49,6 +97,25 @@ def handle (j : Json) : Except String Json := do
       | some (vs, r) =>
         pure (Json.mkObj [("schema", Json.str (bytesStr schema)),
           ("vals", Json.arr (vs.map stepValToJson).toArray), ("rest", jn r.length)])
+  | "cos" =>
+    let lang ← (← j.getObjVal? "lang").getStr?
+    let cap ← jNat (← j.getObjVal? "cap")
+    let ops ← (← j.getObjVal? "ops").getArr?
+    let ops ← ops.toList.mapM wopOfJson
+    let step := if lang == "py" then Py.step else Cpp.step
+    let init : COS := { cap := cap, buf := [], out := [], oob := false }
+    let (final, lens) := ops.foldl (fun (st : COS × List Nat) op =>
+      let s' := step st.1 op
+      (s', s'.out.length :: st.2)) (init, [])
+    pure (Json.mkObj [("lens", Json.arr (lens.reverse.map jn).toArray), ("hex", Json.str (toHex final.abs)),
+      ("oob", Json.bool final.oob)])
+  | "cis" =>
+    let cap ← jNat (← j.getObjVal? "cap")
+    let h ← (← j.getObjVal? "hex").getStr?
+    let some bs := ofHex h | throw "bad hex"
+    let ops ← (← j.getObjVal? "ops").getArr?
+    let out ← runCis (CIS.init cap bs) ops.toList []
+    pure (Json.mkObj [("out", Json.arr (out.map Json.str).toArray)])
   | _ => throw s!"unknown op {op}"
 
 partial def loop (h : IO.FS.Stream) (out : IO.FS.Stream) : IO Unit := do
